@@ -23,19 +23,95 @@ package templ
 //@ lemma url_allowed(p, rest) [C04]: (inL(p, FOLD_http) || inL(p, FOLD_https) || inL(p, FOLD_mailto) || inL(p, FOLD_tel) || inL(p, FOLD_ftp) || inL(p, FOLD_ftps)) ==> inL(cat(p, ":", rest), URL_BROWSER_OK) by reglang
 
 // ---------------------------------------------------------------------------
-// Interface contract of Component.Render (C10, C11, C13): output is append-only
-// and no error is swallowed. Ghost state: out(w) = bytes accepted by w so far;
-// failedDuring = some callee (writer, nested component, expression) returned a
-// non-nil error. Proved for the implementations under contract, assumed for
-// every other implementation.
+// Interface contract of Component.Render (C10, C11, C12, C13): no error is
+// swallowed and output is append-only. Ghost state:
+//   out(w)  bytes accepted so far by writer w;   doc(w) / sink(w): for a runtime.Buffer the logical
+//   output (underlying ++ pending) / the underlying writer's output, otherwise both are out(w)
+//   failedDuring = some callee (writer, nested component, expression) returned a non-nil error
+//   cv() = the context value shared by the contexts of one render (children slot, emitted registry)
+// Proved for the implementations under contract, assumed for every other implementation.
 
-//@ func (Component) Render [C10, C11]
+//@ func (Component) Render [C10, C11, C12, C13]
 //@   interface
-//@   modifies out(w), failedDuring
-//@   ensures isPrefix(old(out(w)), out(w))
+//@   modifies doc(w), failedDuring, *cv()
+//@   ensures implies(result == nil, isPrefix(old(doc(w)), doc(w)))
+//@   ensures isPrefix(old(sink(w)), sink(w))
 //@   ensures implies(old(failedDuring), failedDuring)
 //@   ensures implies(result != nil, failedDuring)
 //@   ensures implies(result == nil, failedDuring == old(failedDuring))
+// registry monotonicity (C12) and the children slot (C13): a component may
+// consume (clear) the slot it was given, never install another one.
+//@   ensures slot() == nil || slot() == old(slot())
+
+//@ func (ComponentFunc) Render [C10]
+//@   inline
+
+// getContext / InitializeContext: trusted with the one-render-one-context-value model.
+//@ func getContext [C10, C12, C13]
+//@   trusted
+//@   ensures result1 == cv()
+//@ func InitializeContext [C10, C12, C13]
+//@   trusted
+
+//@ func EscapeString [C01, C10, C03]
+//@   inline
+
+// ---------------------------------------------------------------------------
+// C13: the children slot.
+//@ func WithChildren [C13]
+//@   modifies cv().children
+//@   ensures slot() == children
+//@ func ClearChildren [C13]
+//@   modifies cv().children
+//@   ensures slot() == nil
+//@ func GetChildren [C13]
+//@   ensures implies(slot() != nil, result == slot())
+//@   ensures implies(slot() == nil, result == NopComponent)
+
+// ---------------------------------------------------------------------------
+// C10: hand-written components and helpers never swallow an error.
+
+//@ func writeStrings [C10, C01]
+//@   modifies doc(w), failedDuring
+//@   ensures isPrefix(old(out(w)), out(w))
+//@   ensures implies(err == nil, out(w) == cat(old(out(w)), flat(ss, len(ss))) && failedDuring == old(failedDuring))
+//@   ensures implies(err != nil, failedDuring)
+//@   ensures implies(old(failedDuring), failedDuring)
+//@   loop 1 invariant out(w) == cat(old(out(w)), flat(ss, iter)) && failedDuring == old(failedDuring)
+
+//@ func Join$1 [C10]
+//@   implements Component.Render
+//@   loop 1 invariant isPrefix(old(doc(w)), doc(w)) && failedDuring == old(failedDuring)
+//@   loop 1 invariant slot() == nil || slot() == old(slot())
+
+//@ func Raw$1 [C10]
+//@   implements Component.Render
+
+//@ func (FlushComponent) Render [C10, C13]
+//@   implements Component.Render
+
+//@ func (*OnceHandle) Once$1 [C10, C12, C13]
+//@   requires o != nil
+//@   implements Component.Render
+
+//@ func writeScriptHeader [C10, C01]
+//@   modifies doc(w), failedDuring
+//@   ensures isPrefix(old(out(w)), out(w))
+//@   ensures implies(err == nil, failedDuring == old(failedDuring))
+//@   ensures implies(err != nil, failedDuring)
+//@   ensures implies(old(failedDuring), failedDuring)
+
+//@ func (ComponentScript) Render [C10]
+//@   implements Component.Render
+
+//@ func (JSONScriptElement) Render [C10]
+//@   implements Component.Render
+
+//@ func ToGoHTML [C10]
+//@   requires c != nil
+//@   modifies failedDuring, *cv()
+//@   ensures implies(err == nil, failedDuring == old(failedDuring))
+//@   ensures implies(err != nil, failedDuring)
 
 // ---------------------------------------------------------------------------
 // C11: the buffered HTTP handler responds all-or-nothing.
@@ -62,7 +138,7 @@ package templ
 // configured error handler, or the default 500 response.
 //@ func (*ComponentHandler) ServeHTTPBuffered [C11]
 //@   requires ch != nil && r != nil
-//@   modifies tr(w), failedDuring
+//@   modifies tr(w), failedDuring, *cv()
 //@   let D = buf.String() @ after ch.Component.Render#1
 //@   ensures implies(err == nil && ch.Status != 0, trExtends(tr(w), old(tr(w)), 3)
 //@       && tr(w)[len(old(tr(w)))] == evSet("Content-Type", ch.ContentType)
@@ -80,5 +156,5 @@ package templ
 // The documented contrast: the streaming handler commits headers and status first.
 //@ func (*ComponentHandler) ServeHTTPStreamed [C11]
 //@   requires ch != nil && r != nil
-//@   modifies tr(w), out(w), failedDuring
+//@   modifies tr(w), doc(w), failedDuring, *cv()
 //@   ensures len(tr(w)) >= len(old(tr(w))) + 1 && tr(w)[len(old(tr(w)))] == evSet("Content-Type", ch.ContentType)
